@@ -1,4 +1,3 @@
 package sim
 
-func oracleC09(r *Result) {}
 func oracleC15(r *Result) {}
